@@ -66,6 +66,8 @@ struct Params {
     truncated_peer: bool,
     /// peers' streams are split inside their second message
     split: bool,
+    /// default scheduling policy of the world
+    policy: u8,
 }
 
 fn scenario(pr: &Params) -> Verdict {
@@ -73,6 +75,7 @@ fn scenario(pr: &Params) -> Verdict {
         nested_env: true,
         yields: true,
         select: false,
+        policy: pr.policy,
     });
     let ty = pr.ty;
     let mut conns = Vec::new();
@@ -224,7 +227,7 @@ fn scenario(pr: &Params) -> Verdict {
 }
 
 fn params_json(p: &Params) -> serde_json::Value {
-    json!({"type": p.ty.name(), "peers": p.peers, "msgs": p.msgs, "truncated_peer": p.truncated_peer, "split": p.split})
+    json!({"type": p.ty.name(), "peers": p.peers, "msgs": p.msgs, "truncated_peer": p.truncated_peer, "split": p.split, "policy": p.policy})
 }
 
 fn params_from(v: &serde_json::Value) -> Option<Params> {
@@ -234,6 +237,7 @@ fn params_from(v: &serde_json::Value) -> Option<Params> {
         msgs: v["msgs"].as_u64()? as usize,
         truncated_peer: v["truncated_peer"].as_bool()?,
         split: v["split"].as_bool()?,
+        policy: v["policy"].as_u64().unwrap_or(0) as u8,
     })
 }
 
@@ -242,18 +246,22 @@ pub fn socket_jobs(tier: Tier) -> Vec<zvcore::explore::Job> {
     let mut jobs = Vec::new();
     for ty in [Ty::Pull, Ty::Sub, Ty::Dealer, Ty::Router, Ty::Rep, Ty::XPub] {
         let mut variants = vec![
-            Params { ty, peers: 2, msgs: 2, truncated_peer: false, split: true },
-            Params { ty, peers: 2, msgs: 3, truncated_peer: true, split: false },
-            Params { ty, peers: 1, msgs: 3, truncated_peer: false, split: true },
+            Params { ty, peers: 2, msgs: 2, truncated_peer: false, split: true, policy: 0 },
+            Params { ty, peers: 2, msgs: 3, truncated_peer: true, split: false, policy: 0 },
+            Params { ty, peers: 1, msgs: 3, truncated_peer: false, split: true, policy: 0 },
         ];
         if thorough {
-            variants.push(Params { ty, peers: 3, msgs: 2, truncated_peer: true, split: true });
-            variants.push(Params { ty, peers: 3, msgs: 3, truncated_peer: false, split: false });
+            variants.push(Params { ty, peers: 3, msgs: 2, truncated_peer: true, split: true, policy: 0 });
+            variants.push(Params { ty, peers: 3, msgs: 3, truncated_peer: false, split: false, policy: 0 });
         }
+        let variants: Vec<Params> = variants
+            .into_iter()
+            .flat_map(|v| (0..3u8).map(move |pol| Params { policy: pol, ..v.clone() }))
+            .collect();
         for pr in variants {
             let pr2 = pr.clone();
             jobs.push(e3::job(
-                format!("C05/socket/{}/{}x{}{}{}", ty.name(), pr.peers, pr.msgs, if pr.truncated_peer { "/trunc" } else { "" }, if pr.split { "/split" } else { "" }),
+                format!("C05/socket/{}/{}x{}{}{}/policy{}", ty.name(), pr.peers, pr.msgs, if pr.truncated_peer { "/trunc" } else { "" }, if pr.split { "/split" } else { "" }, pr.policy),
                 params_json(&pr),
                 tier.pick(2, 3),
                 tier.pick(60_000, 1_500_000),
